@@ -49,8 +49,8 @@ def build_object(h, name: str, code: bytes, elfclass: int = 64, section: str = "
     return obj
 
 
-def objdump_text(obj: str, sections=None) -> str:
-    cmd = ["objdump", "-d", "-M", "att"]
+def objdump_text(obj: str, sections=None, extra=()) -> str:
+    cmd = ["objdump", "-d", "-M", "att", *extra]
     for s in sections or []:
         cmd += ["-j", s]
     r = subprocess.run(cmd + [obj], capture_output=True, text=True)
@@ -450,12 +450,15 @@ def run_exotic(h, res, known, clauses):
         r = subprocess.run(["as", f"--{cls}", sp, "-o", obj], capture_output=True, text=True)
         if r.returncode != 0:
             raise HarnessError(f"as failed on the exotic-{cls} source: " + r.stderr[:400])
-        text = objdump_text(obj)
-        for crlf in (False, True):       # the same listing saved with DOS line endings
-            problems, cnt = analyse_text(h, mop, text, clauses, crlf=crlf)
-            res.evaluations += cnt["inst_lines"]
-            res.nontrivial += cnt["inst_lines"]
-            res.count("exotic_lines", cnt["inst_lines"])
-            for clause, line, exp, obs in problems:
-                res.fail({"clause": clause, "family": "exotic", "line": line, "elfclass": cls, "crlf": crlf, "expected": str(exp)[:300],
-                          "observed": str(obs)[:300], "size": len(line or "")}, known)
+        # the default layout (7 raw bytes per line + continuation lines) and `--insn-width=15` (every instruction on ONE line,
+        # up to 15 raw bytes in the byte column)
+        for extra in ((), ("--insn-width=15",)):
+            text = objdump_text(obj, extra=extra)
+            for crlf in (False, True):       # the same listing saved with DOS line endings
+                problems, cnt = analyse_text(h, mop, text, clauses, crlf=crlf)
+                res.evaluations += cnt["inst_lines"]
+                res.nontrivial += cnt["inst_lines"]
+                res.count("exotic_lines_wide" if extra else "exotic_lines", cnt["inst_lines"])
+                for clause, line, exp, obs in problems:
+                    res.fail({"clause": clause, "family": "exotic", "line": line, "elfclass": cls, "crlf": crlf, "wide": bool(extra),
+                              "expected": str(exp)[:300], "observed": str(obs)[:300], "size": len(line or "")}, known)
